@@ -92,6 +92,26 @@ Definition op_ens_measured_entry : opfun := fun zs qs =>
   | Some (e, q) => Ok [qz (Z.of_nat e); q; qz (Z.of_nat (length table))]
   | None => Err 9 end.
 
+(* legacy ProbDist.__getitem__ (Model/C16_PySem.v: probdist_get).  zs = has_shape :: block(shape) ++ kind :: block(index), kind as in
+   md.index_get; qs = ps.  Ok (rank :: shape ++ entries) of the returned (sub-)array, or Err 2 / 9 / 10 for ValueError / IndexError / TypeError *)
+From QV.Model Require Import C16_PySem.
+From Coq Require Import String.
+Definition op_pd_getitem : opfun := fun zs qs =>
+  match zs with
+  | hs :: rest =>
+      let '(sh, r1) := block rest in
+      match r1 with
+      | kind :: r2 =>
+          let '(ix, _) := block r2 in
+          let a := if (kind =? 0)%Z then (match ix with i :: _ => AInt i | [] => AOther end)
+                   else if (kind =? 1)%Z then ATuple ix else AOther in
+          match probdist_get Qc_OF (mk_pd Qc_OF qs (if (hs =? 0)%Z then None else Some sh)) a with
+          | PRet (flat, shp) => Ok (qz (Z.of_nat (List.length shp)) :: map qz shp ++ flat)
+          | PRaise e => if String.eqb e "ValueError" then Err 2 else if String.eqb e "IndexError" then Err 9 else Err 10
+          end
+      | [] => Err (-1) end
+  | [] => Err (-1) end.
+
 Definition C16_ops : optable :=
   [ ("idx.multi_from_serial"%string, op_multi_from_serial);
     ("idx.serial_from_multi"%string, op_serial_from_multi);
@@ -102,4 +122,5 @@ Definition C16_ops : optable :=
     ("md.conditionalize"%string, op_md_conditionalize);
     ("md.getitem"%string, op_md_getitem);
     ("md.index_get"%string, op_md_index_get);
-    ("ens.measured_entry"%string, op_ens_measured_entry) ].
+    ("ens.measured_entry"%string, op_ens_measured_entry);
+    ("pd.getitem"%string, op_pd_getitem) ].
